@@ -53,10 +53,22 @@ def ex_int(lo, hi, body, name="j"):
     return Exists([j], And(lo <= j, j < hi, body(j)))
 
 
+RT_EVAL = None  # set by pyvc/rtdrive.py while contracts are evaluated on concrete snapshots
+
+
 def is_filter(h_res, res, n, src_item, phi, emb, inv, h_src=None):
     """`res` (a list object, content read in heap h_res) is the order-preserving filter of
     the sequence (n, src_item) by predicate phi, witnessed by the strictly increasing
     embedding emb and its partial inverse inv."""
+    if RT_EVAL is not None:
+        # run-time cross-check (pyvc/rtcheck.py): the witnesses are existential; on concrete snapshots the statement
+        # "res is the order-preserving filter of (n, src_item) by phi" is decided directly
+        E = RT_EVAL
+        nn = E.value(n)
+        keep = [E.value(src_item(IntVal(kk))) for kk in range(nn) if E.holds(phi(src_item(IntVal(kk))))]
+        r = E.value(res)
+        got = [E.value(h_res.litem(res, IntVal(ii))) for ii in range(E.value(h_res.llen(res)))]
+        return BoolVal(r is not None and len(got) == len(keep) and all(a is b for a, b in zip(got, keep)))
     ln = h_res.llen(res)
     i, j, k = L.fresh("i", I), L.fresh("j", I), L.fresh("k", I)
     return And(
